@@ -145,6 +145,13 @@ def expo_screen(ctx, quick):
     sufs = ["", "x", "(", "\n"]
     prefs = PREFIXES if not quick else [p for p in PREFIXES if p in ("", "[", "[a](", "![a](", "[a](<", "[a](/u \"", "[x]: ", "<a ", "<a b=\"", "*", "`", "[a][", "<http://", "$", "[^", "\\")] + ["![a]("]
     fams = [(p, u, x) for p in prefs for u in UNIT_TOKENS for x in sufs]
+    # an opening marker, then a run of that marker ESCAPED (and of other escapes), with and without a closer: a body loop that can read `\m` as
+    # one unit or as two characters is harmless only as long as any occurrence of m may close the span
+    for mk in ["^", "~", "*", "_", "`", "$", "==", "~~", "^^", ">!", "[", "![", "<", "|", "**", "__", "[^"]:
+        for pre in ("x" + mk, mk, "a " + mk):
+            for u in ("\\" + mk[0], "\\" + mk[0] + "a", "\\\\", "\\" + mk[0] + " "):
+                for x in (" y", "", mk, "\n"):
+                    fams.append((pre, u, x))
     os.environ["MISTUNE_SRC"] = common.repo_src()
     n0 = 26
     res = worker.run_all([(CFGS[1], build(f, n0), 4.0) for f in fams], workers=12)
